@@ -349,6 +349,9 @@ func (sp *spaceRules) candidates(fn *ssa.Function, cursor string) []ssa.Value {
 
 // reads: the abstract values of all pure reads of a cursor evaluated so far in this run, in any frame, finished
 // ones included (a value read on another path is over symbols no fact of this path mentions, so it proves nothing).
+// ghostProducerNow: the value of the producer's cursor when the consumer-side function under analysis returns (see note).
+const ghostProducerNow = "ghost:producer-cursor-at-return"
+
 func (sp *spaceRules) reads(p *bounds.Probe, cursor string) []bounds.Lin {
 	return sp.seen[cursor]
 }
@@ -376,6 +379,21 @@ func (sp *spaceRules) note(p *bounds.Probe) {
 			if cand == v {
 				if av, ok := p.Val(0, v); ok && av.Kind == bounds.KInt {
 					sp.seen[cur] = append(sp.seen[cur], av.Int)
+					// the producer's cursor only grows and only the producer stores it: on the consumer side every read
+					// of it is a lower bound of its value at any later moment. The ghost symbol stands for that value when
+					// the function returns; it lets two reads on two branches (a lock-free fast path beside the wait
+					// loop) meet in one fact at the join.
+					if cur == "pseq" && p.St != nil {
+						consumerSide := true
+						for i := 0; i < p.Frames(); i++ {
+							if f := p.Fn(i); sp.producer(f) || f == sp.reserve {
+								consumerSide = false
+							}
+						}
+						if consumerSide {
+							p.St.Add(bounds.LE(av.Int, bounds.Sym(ghostProducerNow)))
+						}
+					}
 				}
 			}
 		}
@@ -674,7 +692,7 @@ func (sp *spaceRules) probe(p *bounds.Probe) {
 			good := false
 			if okv && av.Kind == bounds.KSlice {
 				for _, cr := range sp.reads(p, "cseq") {
-					for _, pr := range sp.reads(p, "pseq") {
+					for _, pr := range append(sp.reads(p, "pseq"), bounds.Sym(ghostProducerNow)) {
 						if p.Proves(bounds.LE(cr.Add(av.Len), pr)) {
 							good = true
 						}
